@@ -760,6 +760,96 @@ def _every_load_queues(ctx):
            construct='load_app always queues')
 
 
+def _assignment_key(ctx):
+    """C06.7: the assignment table is filed and searched under the same key:
+    load_allocations and find_assignment derive the key of a pattern and of
+    an instance name by the same function (a name filed under proid and
+    looked up under user@proid falls through to the default allocation)."""
+    loader = ctx.index.get_class(K.LOADER, 'Loader')
+    filer = loader.methods.get('load_allocations')
+    finder = loader.methods.get('find_assignment')
+    ctx.require(filer is not None and finder is not None,
+                'load_allocations / find_assignment', rule='C06.7')
+
+    def key_forms(func):
+        """Shapes of the keys under which func indexes self.assignments:
+        the callee name for f(x), else the expression with its single free
+        name replaced by a placeholder."""
+        forms = set()
+        # on the source of the routine (the view would splice the key helper
+        # in and hide that both sides call the same one)
+        defs = {}
+        for sub in K.walk_no_nested(func.raw):
+            if isinstance(sub, ast.Assign) and len(sub.targets) == 1 and \
+                    isinstance(sub.targets[0], ast.Name):
+                defs.setdefault(sub.targets[0].id, []).append(sub.value)
+        for sub in K.walk_no_nested(func.raw):
+            expr = None
+            if isinstance(sub, ast.Subscript) and \
+                    N.txt(sub.value) == 'self.assignments':
+                expr = sub.slice
+            elif isinstance(sub, ast.Call) and K.is_meth(
+                    sub, 'get', 'setdefault', 'pop') and \
+                    K.recv_text(sub) == 'self.assignments' and sub.args:
+                expr = sub.args[0]
+            elif isinstance(sub, ast.Compare) and len(sub.ops) == 1 and \
+                    isinstance(sub.ops[0], (ast.In, ast.NotIn)) and \
+                    N.txt(sub.comparators[0]) == 'self.assignments':
+                expr = sub.left
+            if expr is not None:
+                if isinstance(expr, ast.Name) and \
+                        len(defs.get(expr.id, [])) == 1:
+                    expr = defs[expr.id][0]
+                if isinstance(expr, ast.Call) and isinstance(
+                        expr.func, ast.Name) and len(expr.args) == 1:
+                    forms.add('%s(.)' % expr.func.id)
+                else:
+                    names = sorted(n for n in N.mentions(expr)
+                                   if n.isidentifier())
+                    text = N.txt(expr)
+                    if len(names) == 1:
+                        text = text.replace(names[0], '.')
+                    forms.add(text)
+        return forms
+    wforms, rforms = key_forms(filer), key_forms(finder)
+    ctx.ob('C06.7', finder, None,
+           bool(wforms) and wforms == rforms,
+           'assignments are filed and looked up under the same key (filed '
+           'under %s, looked up under %s)' % (sorted(wforms), sorted(rforms)),
+           construct='assignment key agreement')
+
+
+def _every_event(ctx):
+    """C06.7: every event of a batch reaches the handler of its resource - a
+    priority update is an event of its own, and two of them may be pending
+    together; the only reason to pass one over is a resource without a
+    handler."""
+    master = ctx.index.get_class(K.MASTER, 'Master')
+    func = master.methods.get('process_events') if master else None
+    ctx.require(func is not None, 'Master.process_events', rule='C06.7')
+    graph = ctx.cfg(func)
+    nz = N.Normaliser()
+    facts = N.must_facts(graph, nz)
+    sites = [(n, c) for n, c in K.nodes_calling(
+        graph, lambda c: isinstance(c.func, ast.Subscript) and
+        'event_handlers' in N.txt(c.func.value))]
+    ctx.require(sites, 'dispatch to the resource handler in process_events',
+                rule='C06.7', func=func)
+    for node, call in sites:
+        loop = K.enclosing_for(graph, node)
+        names = N.for_targets(loop) if loop is not None else set()
+        mine = [f for f in N.raw_only(facts[node]) if f.mentions & names]
+        ok = all(f.key[0] == 'in' and f.key[3] and
+                 'event_handlers' in f.key[2] for f in mine)
+        ctx.ob('C06.7', func, node, ok and loop is not None,
+               'an event is dispatched whenever its resource has a handler '
+               '(conditions: %s)' % sorted(N.show(f) for f in mine),
+               construct='every event dispatched')
+        if loop is not None:
+            K.exhaustive_loop(ctx, 'C06.7', func, loop,
+                              'dispatch of the events of a batch')
+
+
 def _given_value_kept(ctx, alloc):
     """C06.2: a configured value is taken whenever one is given - the
     setters fall back to the default under `is None` only, so that a legal
@@ -950,6 +1040,8 @@ def check(ctx):
     _reload_order(ctx)
     _cumulative(ctx, priv, merged)
     _every_load_queues(ctx)
+    _assignment_key(ctx)
+    _every_event(ctx)
     _sentinel(ctx, priv, merged)
     _layout(ctx, priv, merged)
     _exactly_once(ctx, priv, merged)
